@@ -443,6 +443,10 @@ func (u *Unit) condContextParts(n ast.Node) []string {
 			if s != u.Lit {
 				parts = nil
 			}
+		case *ast.BlockStmt:
+			parts = append(parts, u.earlyReturnContext(s.List, path[i+1], isGuard)...)
+		case *ast.CaseClause:
+			parts = append(parts, u.earlyReturnContext(s.Body, path[i+1], isGuard)...)
 		case *ast.IfStmt:
 			child := path[i+1]
 			if child != ast.Node(s.Body) && (s.Else == nil || child != s.Else) {
@@ -451,11 +455,7 @@ func (u *Unit) condContextParts(n ast.Node) []string {
 			if isGuard(s.Cond) {
 				continue
 			}
-			br := "if"
-			if child != ast.Node(s.Body) {
-				br = "else"
-			}
-			parts = append(parts, br+"("+u.argShape(s.Cond, s.Cond, 3)+")")
+			parts = append(parts, u.ctxPart(child == ast.Node(s.Body), s.Cond))
 		case *ast.SwitchStmt:
 			if s.Tag != nil || i+2 >= len(path) {
 				continue
@@ -472,16 +472,85 @@ func (u *Unit) condContextParts(n ast.Node) []string {
 				}
 				for _, e := range c.List {
 					if !isGuard(e) {
-						parts = append(parts, "else("+u.argShape(e, e, 3)+")")
+						parts = append(parts, u.ctxPart(false, e))
 					}
 				}
 			}
 			for _, e := range cc.List {
 				if !isGuard(e) {
-					parts = append(parts, "if("+u.argShape(e, e, 3)+")")
+					parts = append(parts, u.ctxPart(true, e))
 				}
 			}
 		}
+	}
+	return parts
+}
+
+// ctxPart renders one enclosing mode condition independent of how the branch is written:
+// `if a != b {X}` is `else(a==b)`, `if !(c) {X}` is `else(c)`, `if a >= b` is `else(a<b)`.
+func (u *Unit) ctxPart(taken bool, cond ast.Expr) string {
+	cond = ast.Unparen(cond)
+	for {
+		ue, ok := cond.(*ast.UnaryExpr)
+		if !ok || ue.Op != token.NOT {
+			break
+		}
+		cond = ast.Unparen(ue.X)
+		taken = !taken
+	}
+	text := ""
+	if be, ok := cond.(*ast.BinaryExpr); ok {
+		op := ""
+		switch be.Op {
+		case token.EQL:
+			op = "=="
+		case token.NEQ:
+			op, taken = "==", !taken
+		case token.LSS:
+			op = "<"
+		case token.GEQ:
+			op, taken = "<", !taken
+		case token.LEQ:
+			op = "<="
+		case token.GTR:
+			op, taken = "<=", !taken
+		}
+		if op != "" {
+			l, r := u.argShape(be.X, cond, 3), u.argShape(be.Y, cond, 3)
+			if op == "==" && l > r {
+				l, r = r, l
+			}
+			text = l + op + r
+		}
+	}
+	if text == "" {
+		text = u.argShape(cond, cond, 3)
+	}
+	if taken {
+		return "if(" + text + ")"
+	}
+	return "else(" + text + ")"
+}
+
+// earlyReturnContext: statements that follow `if c { ...; return <success> }` run under else(c), exactly
+// as if they were written in the else branch (early-return inversion does not change the context).
+func (u *Unit) earlyReturnContext(list []ast.Stmt, child ast.Node, isGuard func(ast.Expr) bool) []string {
+	var parts []string
+	for _, st := range list {
+		if ast.Node(st) == child {
+			break
+		}
+		is, ok := st.(*ast.IfStmt)
+		if !ok || is.Else != nil || len(is.Body.List) == 0 || isGuard(is.Cond) {
+			continue
+		}
+		if _, ok := is.Body.List[len(is.Body.List)-1].(*ast.ReturnStmt); !ok {
+			continue
+		}
+		if b := u.BlockOf(is.Body.List[len(is.Body.List)-1]); b != nil && u.FR[b] {
+			continue
+		}
+		parts = append(parts, u.ctxPart(false, is.Cond))
 	}
 	return parts
 }
